@@ -68,6 +68,14 @@ def check_model(m, acc, fam, k):
         acc.violation(None, case, {"what": "construction / errors / to_ge_polyhedron raised", "exc": repr(e), "model": show(m)})
         return
     acc.n("transitions")
+    try:
+        P_again = obj.to_ge_polyhedron(active=True)
+        same = np.asarray(P_again).tolist() == np.asarray(P).tolist() and [v.id for v in P_again.variables] == [v.id for v in P.variables]
+    except BaseException as e:
+        same = False
+    if not same:
+        acc.violation(None, case, {"what": "to_ge_polyhedron called twice on one object gives two different systems", "model": show(m)})
+        return
     A = np.asarray(P.A, dtype=np.int64)
     b = np.asarray(P.b, dtype=np.int64)
     cols = list(P.A.variables)
